@@ -363,7 +363,9 @@ PROPS = {
             'once under the same conditions with all the fields of the command, makes its status `$?` and hands on its divert, and a '
             'utility that is not found leaves status 127 (the constant is read from yash-env/src/semantics.rs) with one report and nothing started; '
             '(5) unit simplecmd (Verus): SimpleCommand::execute classifies the first field and runs exactly the executor for that '
-            'kind of target, once (the absent-target executor for a command without a name), nothing after a failed expansion; the if command tries its conditions in order, runs a `then` branch only right after ITS condition held and the else '
+            'kind of target, once (the absent-target executor for a command without a name), nothing after a failed expansion; expand_words expands the '
+            'words in order, each once, up to the first failure and hands on the status of the LAST command substitution performed in any of them '
+            '(a later word without one does not erase it), and a command without a name starts from exactly that status or 0 (XCU 2.9.1); the if command tries its conditions in order, runs a `then` branch only right after ITS condition held and the else '
             'branch only after every condition failed, has the status and result of the branch it ran, and status 0 when it ran none. '
             'NOT decided: everything else C02 says - which commands run in which order with which $?, multi-command pipelines, '
             'for/case, functions and return, the decoding of Break/Continue diverts by for loops, the exit status of loops, the $PATH walk '
@@ -448,7 +450,9 @@ PROPS = {
             'waited for without it (no SIGCHLD can slip between a wait() that found nothing and the sleep); the shell sleeps only for SIGCHLD '
             'and only right after a wait() that found nothing; every status the system reports is handed to the job table at once and '
             'unchanged, none is dropped; what is returned is what the system reported for the awaited child in the last wait(); only a halted '
-            '(resp. not merely stopped) child ends the waiting, and the exit status is the one its result stands for. (2) Kani runs the real job_status closure of the wait built-in '
+            '(resp. not merely stopped) child ends the waiting, and the exit status is the one its result stands for: the real conversions '
+            'From<ProcessResult> for ExitStatus and TryFrom<ProcessState> for ExitStatus (yash-env/src/job.rs) are verified too - an exited child '
+            'stands for its own status, a stopped or killed one for the status of the signal, a running one for none. (2) Kani runs the real job_status closure of the wait built-in '
             '(yash-builtin/src/wait/status.rs) - the step that turns the state of a child recorded in the job table into what `wait` '
             'answers - on job tables holding one job (process state, ownership, job-control flags all symbolic; signals 1..64) or none: an '
             'exited child yields its exit status, a signalled child 384 + the signal number, a stopped child is reported only under job '
@@ -460,7 +464,7 @@ PROPS = {
             'executor), `wait` without operands. The family of technique is silent on interleavings; this check sees none of them.'),
         'trusted_base': ['Verus 0.2026.09.13 + Z3', 'Kani 0.68.0 + CBMC 6.11', '/verif/tools/vextract.py, /verif/tools/kunit.py'],
         'assumptions': [
-            'unit waitsub: enabling the SIGCHLD disposition, System::wait, JobList::update_status and wait_for_signal are opaque calls that update a ghost monitor in the reduced Env (rewrite rule tokens-to-helper for the three field-method calls); From<ProcessResult> for ExitStatus is uninterpreted; await points dropped; termination not claimed; WHEN children change state is not modelled',
+            'unit waitsub: enabling the SIGCHLD disposition, System::wait, JobList::update_status and wait_for_signal are opaque calls that update a ghost monitor in the reduced Env (rewrite rule tokens-to-helper for the three field-method calls); From<signal::Number> for ExitStatus (number + 0x180) is uninterpreted; the spec functions of the From / TryFrom spec traits of vstd are declared by hand and the real bodies are proved to obey them; await points dropped; termination not claimed; WHEN children change state is not modelled',
             'std HashMap of the job table is replaced by the linear stand-in of the Kani pipeline (cfg verif_map)',
             'tables of at most one job; the status test is applied twice; signals restricted to 1..64',
         ],
